@@ -7,6 +7,7 @@ require (
 	github.com/aperturerobotics/controllerbus v0.53.1
 	github.com/aperturerobotics/protobuf-go-lite v0.12.2
 	github.com/aperturerobotics/starpc v0.49.3
+	github.com/aperturerobotics/util v1.33.1
 	github.com/blang/semver/v4 v4.0.0
 	github.com/mr-tron/base58 v1.3.0
 	github.com/sirupsen/logrus v1.9.5-0.20260309202648-9f0600962f75
@@ -18,7 +19,6 @@ require (
 	github.com/aperturerobotics/entitygraph v0.11.0 // indirect
 	github.com/aperturerobotics/go-websocket v1.8.15-0.20260329113544-74dbfb8f11c6 // indirect
 	github.com/aperturerobotics/json-iterator-lite v1.0.1-0.20260223122953-12a7c334f634 // indirect
-	github.com/aperturerobotics/util v1.33.1 // indirect
 	github.com/klauspost/compress v1.18.5 // indirect
 	github.com/klauspost/cpuid/v2 v2.2.10 // indirect
 	github.com/libp2p/go-buffer-pool v0.1.0 // indirect
